@@ -43,7 +43,7 @@ class RequestModel:
         """place key of `self` as the method sees it: (1,) for by-value self, (1, '*') for &self / &mut self"""
         return (1, "*") if f.locals[1]["ty"].startswith("&") else (1,)
 
-    def run(self, f0, writer="some", reader="some", extra=None, max_paths=6000):
+    def run(self, f0, writer="some", reader="some", extra=None, max_paths=6000, on_call=None):
         f = self.fn(f0)
         st = symex.Sym(f)
         base = self.self_base(f0)
@@ -59,7 +59,7 @@ class RequestModel:
                 k = st2.resolve_key(pl_key(t["pl"]))
                 return absint.deep(st2, st2.read_key(self.key(k, self.wslot)))
             return None
-        return f, [p for p in absint.explore(f, 0, st, max_paths=max_paths, on_drop=on_drop, deep_events=True) if p.end[0] not in DEAD]
+        return f, [p for p in absint.explore(f, 0, st, max_paths=max_paths, on_drop=on_drop, deep_events=True, on_call=on_call) if p.end[0] not in DEAD]
 
     def slot_at_end(self, f0, p, path):
         return absint.deep(p.state, p.state.read_key(self.key(self.self_base(f0), path)))
